@@ -4,7 +4,7 @@ Import ListNotations.
 Require Import Base.Bytes.
 Require Import Conc.TwoPLDefs Conc.TwoPL Conc.DeadlockDefs Conc.Deadlock.
 Require Import Conc.LockModel Conc.LockOrder Conc.Skel Conc.SkelSem Conc.SkelSound Conc.GroundBridge
-               Conc.Corollaries Conc.Chain.
+               Conc.Corollaries Conc.Chain Conc.EraseSim.
 
 (* sortedLockPoses (model: the set of stripe indexes of the keys, insertion-sorted): strictly
    ascending, and exactly the stripes of the keys -- whatever the keys, repetitions included *)
@@ -59,6 +59,15 @@ Theorem C13_multi_is_ordered : forall nlocks lower sk args t,
   well_locked sk = true -> run_of nlocks lower sk args t -> ordered (lockprog t) = true.
 Proof. exact multi_is_ordered. Qed.
 Print Assumptions C13_multi_is_ordered.
+
+(* the lock-only obligation alone suffices for the discipline (used for executors whose data
+   accesses are the subject of an open finding): a run has the lock program of a run of the erased
+   skeleton; depth_ok 64 = nesting depth within the fuel of [erase], itself an obligation *)
+Theorem C13_ordered_acquisition_sound : forall nlocks lower sk args t,
+  depth_ok 64 sk = true -> ordered_acquisition sk = true ->
+  run_of nlocks lower sk args t -> ordered (lockprog t) = true.
+Proof. exact ordered_acquisition_sound. Qed.
+Print Assumptions C13_ordered_acquisition_sound.
 
 (* hence: any number of clients, each issuing any sequence of accepted commands with any
    arguments (any key overlap, repeated keys, stripe collisions), in any interleaving: never stuck *)
